@@ -63,3 +63,45 @@ Example C08_example :
   line_col_at (newlines_at (bs "ab" ++ [10] ++ bs "cde" ++ [10; 10] ++ bs "f") 0) 5 = (2, 3%Z)
   /\ snd (lex [bs "a" ++ [10]; bs "b" ++ [10]]) = [1; 3].
 Proof. vm_compute. split; reflexivity. Qed.
+
+(* ==== generated additions (tools/mkprops.py, table APPEND in tools/propstable.py) ==== *)
+(* runtime errors and warnings are located through the position table of the program: one entry per code byte, each the
+   end offset of a token of the source, non-decreasing along the code when token positions are *)
+From BCL Require Import Model.Parser Proofs.ParserTotal Proofs.CompileVerifies Proofs.DiagProofs.
+
+(* every entry of the position table is the end offset of a token the lexer delivered *)
+Theorem C08_code_positions_are_token_positions : forall name cs x,
+  In x (g_pos (pr_prog (parse_chunks name cs))) -> exists t, In t (fst (lex cs)) /\ tpos t = x.
+Proof. first [exact DiagProofs.prog_positions_are_token_positions | apply DiagProofs.prog_positions_are_token_positions]. Qed.
+Print Assumptions C08_code_positions_are_token_positions.
+
+(* hence an offset inside the source *)
+Theorem C08_code_positions_in_source : forall name cs x,
+  In x (g_pos (pr_prog (parse_chunks name cs))) -> x <= nlen (concat cs).
+Proof. first [exact DiagProofs.prog_positions_in_source | apply DiagProofs.prog_positions_in_source]. Qed.
+Print Assumptions C08_code_positions_in_source.
+
+(* one entry per code byte *)
+Theorem C08_code_positions_length : forall name cs,
+  length (g_pos (pr_prog (parse_chunks name cs))) = length (g_code (pr_prog (parse_chunks name cs))).
+Proof. first [exact DiagProofs.prog_positions_length | apply DiagProofs.prog_positions_length]. Qed.
+Print Assumptions C08_code_positions_length.
+
+(* jump patching never disturbs the table *)
+Theorem C08_code_positions_sorted : forall name cs, tpos_mono (fst (lex cs)) ->
+  StronglySorted N.le (g_pos (pr_prog (parse_chunks name cs))).
+Proof. first [exact DiagProofs.prog_positions_sorted | apply DiagProofs.prog_positions_sorted]. Qed.
+Print Assumptions C08_code_positions_sorted.
+
+(* the parser logs exactly one diagnostic per tERR token it receives, at that token's position *)
+Theorem C08_diag_per_lexical_error : forall s, J s -> toks s <> [] ->
+  exists errs t rest,
+    toks s = errs ++ t :: rest /\ Forall (fun e => isERR e = true) errs /\ isERR t = false /\
+    toks (advance s) = rest /\ cur_ (advance s) = t /\ prev (advance s) = cur_ s /\
+    log (advance s) = rev (map lex_diag errs) ++ log s /\
+    panicMode (advance s) = panicMode s || existsb isERR errs /\
+    hadError (advance s) = hadError s || existsb isERR errs /\
+    hadLexFail (advance s) = hadLexFail s || isFAIL t /\
+    st_tokens (advance s) = st_tokens s + N.of_nat (S (length errs)) /\ EF s (advance s).
+Proof. first [exact DiagProofs.advance_spec | apply DiagProofs.advance_spec]. Qed.
+Print Assumptions C08_diag_per_lexical_error.
